@@ -36,6 +36,16 @@ func (e *Engine) registerIntrinsics() {
 		e.intr[pp+".ndTry"] = intrNdTry
 		e.intr[pp+".ndOpt"] = intrNdOpt
 		e.intr[pp+".ndName"] = intrNdName
+		e.intr[pp+".ndParam"] = func(e *Engine, c *CallCtx) []Outcome {
+			name := e.ndName(c, c.Args[0])
+			if v, ok := e.params[name]; ok {
+				return one(c.St, I64(int64(v)))
+			}
+			return one(c.St, c.Args[1])
+		}
+		e.intr[pp+".ndBytesEqual"] = func(e *Engine, c *CallCtx) []Outcome {
+			return one(c.St, e.bytesEq(c.St, c.Args[0].(VSlice), c.Args[1].(VSlice), 80))
+		}
 		e.intr[pp+".ndSymbolic"] = func(e *Engine, c *CallCtx) []Outcome { return one(c.St, True) }
 		e.intr[pp+".verifReg"] = func(e *Engine, c *CallCtx) []Outcome { return one(c.St, True) }
 	}
